@@ -733,7 +733,7 @@ func checkWriterObs(c wcase) (observation, error) {
 			shape += ", writing through obiutils.CompressStream"
 		}
 		if c.SkipEmpty {
-			shape += fmt.Sprintf(", OptionsSkipEmptySequence(true), record lengths %v (records of length 0 must be left out, %d records expected in the output)", c.Lens, len(c.expected()))
+			shape += fmt.Sprintf(", OptionsSkipEmptySequence(true), record lengths %s (records of length 0 must be left out, %d records expected in the output)", abbr(fmt.Sprint(c.Lens)), len(c.expected()))
 		}
 		return obs, fmt.Errorf("%s writer, %d batches with record counts %v%s pushed in order %v (%d formatting worker(s), gzip=%v, closefile=%v; model: chunks %v wait in the buffer, longest drained run %d): %v\n%s",
 			c.Writer, c.n(), c.Sizes, shape, c.Arrival, c.Workers, c.Gzip, c.Close, h.Buffered, h.MaxDrainRun, err, obs.describe())
